@@ -106,6 +106,17 @@ func c13Run(ctx *core.Ctx) {
 						}
 					}
 				}
+				// the delivery gives up (returns an error) before it has consumed the LAST chunk, after
+				// setting the statuses of the sequence: nothing read / three octets read / the first
+				// two of three chunks read
+				for _, transfer := range []string{"bdatfail", "bdatfailpart", "bdatfail3"} {
+					idx++
+					var calls []c13Call
+					for k, a := range sq {
+						calls = append(calls, c13Call{Addr: a, Nil: (idx+k)%5 == 0})
+					}
+					emit(c13Case{Rcpts: rc, Calls: calls, Timing: "before", RetErr: true, Transfer: transfer, Backend: "lmtp"})
+				}
 				// panics (per-recipient backend)
 				for pi, pn := range []string{"first", "aftercalls", "toooften", "unknown", "late"} {
 					idx++
@@ -134,8 +145,10 @@ func c13Run(ctx *core.Ctx) {
 				emit(c13Case{Rcpts: rc, Panic: "first", Transfer: transfer, Backend: "plain", Timing: "after"})
 			}
 			// the delivery fails (returns an error) before consuming the LAST chunk
-			emit(c13Case{Rcpts: rc, RetErr: true, Transfer: "bdatfail", Backend: "plain", Timing: "after"})
-			emit(c13Case{Rcpts: rc, RetErr: true, Transfer: "bdatfail", Backend: "lmtp", Timing: "after"})
+			for _, transfer := range []string{"bdatfail", "bdatfailpart", "bdatfail3"} {
+				emit(c13Case{Rcpts: rc, RetErr: true, Transfer: transfer, Backend: "plain", Timing: "after"})
+				emit(c13Case{Rcpts: rc, RetErr: true, Transfer: transfer, Backend: "lmtp", Timing: "after"})
+			}
 		}
 	}, c13Exec)
 }
@@ -193,8 +206,20 @@ func c13Exec(ctx *core.Ctx, c c13Case) {
 			}
 			return nil
 		}
-		if c.Transfer == "bdatfail" {
-			return retErr // fails before consuming anything
+		if strings.HasPrefix(c.Transfer, "bdatfail") {
+			// gives up before the LAST chunk has been consumed
+			switch c.Transfer {
+			case "bdatfailpart":
+				r.ReadN(3, 3)
+			case "bdatfail3":
+				r.ReadN(15, 4)
+			}
+			if st != nil {
+				for k := range c.Calls {
+					st.SetStatus(c.addr(c.Calls[k].Addr), statusErr(k, c.Calls[k]))
+				}
+			}
+			return retErr
 		}
 		if c.Panic == "first" {
 			panic("scripted backend panic before any status")
@@ -326,7 +351,7 @@ func c13Exec(ctx *core.Ctx, c c13Case) {
 			return
 		}
 		p.SendStr(msg + ".\r\n")
-	case "bdat1", "bdatfail":
+	case "bdat1", "bdatfail", "bdatfailpart":
 		p.SendStr(fmt.Sprintf("BDAT %d LAST\r\n", len(msg)))
 		p.SendStr(msg)
 	case "bdat3":
@@ -339,6 +364,17 @@ func c13Exec(ctx *core.Ctx, c c13Case) {
 		r, _ = p.ReadReply()
 		all = append(all, r)
 		p.SendStr("BDAT 0 LAST\r\n")
+	case "bdatfail3":
+		p.SendStr("BDAT 5\r\n")
+		p.SendStr(msg[:5])
+		r, _ := p.ReadReply()
+		all = append(all, r)
+		p.SendStr("BDAT 10\r\n")
+		p.SendStr(msg[5:15])
+		r, _ = p.ReadReply()
+		all = append(all, r)
+		p.SendStr(fmt.Sprintf("BDAT %d LAST\r\n", len(msg)-15))
+		p.SendStr(msg[15:])
 	}
 	// collect the final replies; a stall means "server waits for the next command"
 	n := len(c.Rcpts)
@@ -470,7 +506,7 @@ func c13Exec(ctx *core.Ctx, c c13Case) {
 		return
 	}
 	// the message itself must have reached the backend intact whatever the status timing
-	if !panicked0(c) && c.Transfer != "bdatfail" {
+	if !panicked0(c) && !strings.HasPrefix(c.Transfer, "bdatfail") {
 		for di, d := range dataEnds(rig.Log.Events()) {
 			if di == 0 && d.A != msg {
 				fail("C13:message-octets-differ", fmt.Sprintf("the backend read %q, the client sent %q", d.A, msg))
@@ -491,7 +527,7 @@ func c13Exec(ctx *core.Ctx, c c13Case) {
 		}
 		return exp{true, "", 250}
 	}
-	if c.Backend == "plain" || c.Transfer == "bdatfail" {
+	if c.Backend == "plain" {
 		for range c.Rcpts {
 			want = append(want, plainResult())
 		}
@@ -515,10 +551,9 @@ func c13Exec(ctx *core.Ctx, c c13Case) {
 		}
 	}
 	panicked := c.Panic == "first" || c.Panic == "aftercalls" || c.Panic == "toooften" || c.Panic == "unknown"
-	knownPath := c.Transfer == "bdatfail"
 	sigFor := func(s string) string {
-		if knownPath {
-			return "C13:bdat-last-early-failure-single-reply"
+		if strings.HasPrefix(c.Transfer, "bdatfail") {
+			return s + ":early-failure"
 		}
 		return s
 	}
